@@ -449,7 +449,7 @@ def check(run):
             if info.get(1, 0) >= 1 and n > 0:
                 nontriv.add(c)
             if len(selftest_pool) < (400 if thorough else 150) and len(f["out"]) <= 1400 and (n > 0 or rng.random() < 0.1):
-                selftest_pool.append((1, f["out"]))
+                selftest_pool.append((rng.choice([1, 1, 1, 0]), f["out"]))
     run.note("streams: %d cases, %s" % (len(cases), stats))
     # ------------------------------------------------------------------ model correspondence: configuration sweep, WrapPosition, ring buffer
     cfg_lines = []
